@@ -179,18 +179,15 @@ def _encode_varint(value: int) -> bytes:
     Returns:
       Encoded bytes
     """
-    if value == 0:
-        return b"\x00"
-
-    result = []
-    while value > 0:
-        byte = value & 0x7F  # Take lower 7 bits
+    # Most significant group first; every continuation adds one to the
+    # remaining value (the "offset" encoding of gitformat-pack).
+    result = [value & 0x7F]
+    value >>= 7
+    while value:
+        value -= 1
+        result.append(0x80 | (value & 0x7F))
         value >>= 7
-        if value > 0:
-            byte |= 0x80  # Set continuation bit
-        result.append(byte)
-
-    return bytes(result)
+    return bytes(reversed(result))
 
 
 def _decode_varint(data: bytes, offset: int = 0) -> tuple[int, int]:
@@ -202,17 +199,14 @@ def _decode_varint(data: bytes, offset: int = 0) -> tuple[int, int]:
     Returns:
       tuple of (decoded_value, new_offset)
     """
-    value = 0
-    shift = 0
     pos = offset
-
-    while pos < len(data):
+    byte = data[pos]
+    pos += 1
+    value = byte & 0x7F
+    while byte & 0x80:
         byte = data[pos]
         pos += 1
-        value |= (byte & 0x7F) << shift
-        shift += 7
-        if not (byte & 0x80):  # No continuation bit
-            break
+        value = ((value + 1) << 7) | (byte & 0x7F)
 
     return value, pos
 
@@ -298,8 +292,7 @@ def _decompress_path_from_stream(
       tuple of (decompressed_path, bytes_consumed)
     """
     # Decode the varint for remove_len by reading byte by byte
-    remove_len = 0
-    shift = 0
+    remove_len = -1
     bytes_consumed = 0
 
     while True:
@@ -308,8 +301,7 @@ def _decompress_path_from_stream(
             raise ValueError("Unexpected end of file while reading varint")
         byte = byte_data[0]
         bytes_consumed += 1
-        remove_len |= (byte & 0x7F) << shift
-        shift += 7
+        remove_len = ((remove_len + 1) << 7) | (byte & 0x7F)
         if not (byte & 0x80):  # No continuation bit
             break
 
